@@ -70,7 +70,12 @@ def frac_safe_rates(q):
 # ----------------------------------------------------------------------------------------------
 # generator
 # ----------------------------------------------------------------------------------------------
-METHOD_SETS = [["M1"], ["M1", "OGI"], ["OGI", "AB"], ["M1"]]
+# method names: plain ones, names with underscores (the follow-up convention OGI_FU), names that are
+# prefixes of each other (OGI with OGI_FU, a_b with a_b_c) and names that end in a fragment of a
+# parameter suffix (M_survey, X_site): every level looks a method's column up as exactly
+# `method + suffix`, never by splitting the column name
+METHOD_SETS = [["M1"], ["M1", "OGI"], ["OGI", "AB"], ["OGI", "OGI_FU"], ["OGI_FU"], ["AIR_2", "M1"],
+               ["a_b_c", "a_b"], ["M_survey", "M"], ["X_site", "X_deploy"], ["OGI_FU", "OGI", "M_survey"]]
 EQUIP_STRINGS = [["e1"], ["e2"], ["e3"], ["e1", "e2"], ["e2", "e3"], ["e1", "e3"], ["e1", "e2", "e3"],
                  ["e1", "e1"], ["e3", "e2", "e1"]]
 
@@ -860,6 +865,14 @@ def run(ctx):
     if len(ok_grid[False]) < 100 or len(ok_grid[True]) < 30:
         raise core.InfraError("pandas does not read the production-rate grid back exactly")
 
+    for lvl, ok in sorted(extra["methLookupExact"].items()):
+        name = "method-column-lookup-exact:" + lvl
+        ctx.obligations.append(name)
+        if ok:
+            ctx.discharged.append(name)
+        else:
+            ctx.broke(name, "the %s level no longer looks a method-specific value up as <row>.get(method + param): "
+                      "the model's exact-match lookup (MKey.col) is not what the code does" % lvl)
     ctx.obligations.append("sample-call-shape")
     if extra["samplePlain"]:
         ctx.discharged.append("sample-call-shape")
@@ -999,12 +1012,15 @@ def replay(ctx, data):
         vt = P.ValTable()
         lines = P.model_lines(case, tables, vt, picks)
         ml = core.LeanDriver("drv_propagate").run(lines)[-1]
-        il = P.dump_world(world, vt)
+        il = P.dump_world(world, vt, case, tables)
         print("implementation:", il[:1500])
         print("model         :", ml[:1500])
         print("model == implementation:", il == ml)
     else:
         print("implementation:", status, world)
+    seen = {}
     for v in ctx.violations:
-        print("oracle:", v["signature"], "-", v["what"])
+        seen.setdefault(v["signature"], []).append(v["what"])
+    for sig, whats in seen.items():
+        print("oracle:", sig, "-", whats[0], ("(+%d more)" % (len(whats) - 1)) if len(whats) > 1 else "")
     return 1 if ctx.violations else 0
